@@ -64,6 +64,26 @@ CHECKS = {
             "seeded and empty corpora; committed regression inputs of seven repaired defects replay clean.",
             "Absence is never established; -seed pins a campaign only approximately (the saved artefact is the "
             "reproducible unit); leak detection off; YAML scalars are NUL-free.", "DESIGN 2/C19"),
+    "C13": ("exploration", "hypothesis+valtool",
+            "PBT over generated file-state pairs on real temp files, three file-system modes x getFileInfo/getLinkInfo, oracle from os.stat + generated contents",
+            "No counter-example among generated (state1,state2) pairs: default/device-agnostic comparisons are unequal "
+            "whenever existence/size/mtime(/dev/inode) differ and equal when untouched; checksum-only equality iff "
+            "(type,size,content) equal; the missing sentinel never stands for an existing object.",
+            "Uses the sandbox file system; mtimes set explicitly (ns); FileInfo::operator== evaluated inside valtool.",
+            "DESIGN 2/C13"),
+    "C14": ("exploration", "hypothesis+valtool",
+            "PBT of pathIsPrefixedByPath against a three-valued component-wise reference over a collision-prone path alphabet",
+            "No counter-example among generated (path, root) pairs: true on every must pair, false on every must-not pair "
+            "(don't-care only for doubled-separator spellings and the empty root). The removal-set histories through "
+            "the real stale-file-removal command are added with the bsx executor.",
+            "'..'/'.' are ordinary components (lexical).", "DESIGN 2/C14"),
+    "C15": ("exploration", "hypothesis+valtool",
+            "round-trip + canonicity + injectivity PBT over every BuildKey constructor and BuildValue factory (ASan build)",
+            "No counter-example: decode(encode(x)) == x through every accessor; re-encoding and copy/move/move-assign "
+            "give identical bytes; every generated single-field perturbation changes the bytes; kind tags are distinct "
+            "and mutually inverse.",
+            "Constructor preconditions respected (NUL-free StringList entries, non-missing ExistingInput).",
+            "DESIGN 2/C15"),
 }
 
 NOT_APPLICABLE = {
@@ -106,6 +126,9 @@ def main():
             "add_only": True,
         },
         "engines": [
+            {"name": "hypothesis+valtool", "path": "pbt/val.py + harness/valtool.cpp",
+             "serves_properties": [p for p in sorted(CHECKS) if CHECKS[p][1] == "hypothesis+valtool"],
+             "kind_free_text": "Hypothesis driving a persistent line-protocol server (ASan build) that exposes llbuild's pure value-level functions; replaces the rapidcheck binary planned in DESIGN 1.1 (same oracles, shared evidence/replay plumbing, ~3-5k cases/s)"},
             {"name": "libfuzzer", "path": "fuzz/ + pbt/c19.py", "serves_properties": ["C19"],
              "kind_free_text": "five libFuzzer targets (clang-14 -fsanitize=fuzzer,address,undefined) with semantic oracles inside the targets"},
             {"name": "hypothesis+enginesim", "path": "pbt/ + harness/enginesim.cpp",
